@@ -8,7 +8,7 @@ import fw
 import tool
 import wire
 
-THEOREMS = []
+THEOREMS = ["TLX.Props.C08.stage_prefix_monotone", "TLX.Props.C08.build_take_prefix"]
 
 
 def per_flow(out, mx):
@@ -133,6 +133,10 @@ def run(ctx):
                 "coalesced flights or after a key change).")
     ctx.assumptions = ["keys are supplied by a complete key-log file for every cut (a cut that removes a later DSB is the C03 "
                        "missing-keys fault)"]
+    ctx.prove(["TLX.Props.C08", "TLX.Props.C05"])
+    ctx.require_theorems(THEOREMS)
+    import c06_model
+    c06_model.run_model(ctx)          # ties TLX.TcpOut to the real OutputBuilder
     explore(ctx)
     return ctx.finish(search=lambda c: explore(c, scale=2))
 
